@@ -640,10 +640,42 @@ Section Hold.
   Definition fits_wire (data_len : nat) : Prop := (Z.of_nat data_len <= 64567)%Z.
 
   Lemma wire_len_ok p a : e_attr p = Some a -> ok_len a -> fits_wire (length (e_data p)) ->
-    (LN_MAX_MSG_LEN <? Z.of_nat (update_fail_htlc_wire_len p))%Z = false.
+    keeps_attribution p = true.
   Proof.
-    intros Ha [Hh Hm] Hf. unfold update_fail_htlc_wire_len, attr_bytes. rewrite Ha, app_length, Hh, Hm.
-    unfold fits_wire in Hf. unfold LN_MAX_MSG_LEN, NH, NM. apply Z.ltb_ge. lia.
+    intros Ha [Hh Hm] Hf. unfold keeps_attribution, update_fail_htlc_wire_len, attr_bytes.
+    rewrite Ha, app_length, Hh, Hm.
+    unfold fits_wire in Hf. unfold LN_MAX_MSG_LEN, NH, NM. apply negb_true_iff, Z.ltb_ge. lia.
+  Qed.
+
+  Lemma wire_len_too_long p a : e_attr p = Some a -> ok_len a -> ~ fits_wire (length (e_data p)) ->
+    keeps_attribution p = false.
+  Proof.
+    intros Ha [Hh Hm] Hf. unfold keeps_attribution, update_fail_htlc_wire_len, attr_bytes.
+    rewrite Ha, app_length, Hh, Hm.
+    unfold fits_wire in Hf. unfold LN_MAX_MSG_LEN, NH, NM. apply negb_false_iff, Z.ltb_lt. lia.
+  Qed.
+
+  (** C14, message-size boundary.  A relaying hop keeps (its own and the downstream) attribution data
+      exactly when the failure's data has at most 64567 bytes, i.e. when the [update_fail_htlc] with the
+      920 attribution bytes has at most [LN_MAX_MSG_LEN] = 65535 bytes - whether or not the packet it
+      received carried attribution data. *)
+  Theorem relay_attribution_boundary k t P :
+    (e_attr P = None \/ exists e, e_attr P = Some e /\ ok_len e) ->
+    ((exists a, e_attr (wrap_failure k t P) = Some a) <-> fits_wire (length (e_data P))).
+  Proof.
+    intros HP. unfold OnionFail.wrap_failure, OnionFail.process_failure_packet.
+    set (p2 := update_attribution_data hmac (mk_err (e_data P) (option_map shift_right (e_attr P))) k t).
+    assert (Hp2 : exists a, e_attr p2 = Some a /\ ok_len a /\ e_data p2 = e_data P).
+    { unfold p2, update_attribution_data. cbn [e_attr e_data].
+      eexists. split; [reflexivity|]. split; [|reflexivity]. apply attr_update_spec.
+      destruct HP as [->|(e & -> & Hok)]; cbn [option_map]; [apply attr_new_ok_len|now apply shift_right_ok_len]. }
+    destruct Hp2 as (a & Ha & Hoka & Hd).
+    split.
+    - intros [x Hx]. destruct (keeps_attribution p2) eqn:K; [|discriminate Hx].
+      unfold fits_wire. destruct (Z_le_gt_dec (Z.of_nat (length (e_data P))) 64567) as [H|H]; [exact H|].
+      rewrite (wire_len_too_long p2 a Ha Hoka) in K; [discriminate|]. rewrite Hd. unfold fits_wire. lia.
+    - intros Hf. rewrite (wire_len_ok p2 a Ha Hoka) by (now rewrite Hd).
+      unfold OnionFail.crypt_failure_packet. rewrite Ha. cbn [option_map e_attr]. eauto.
   Qed.
 
   Lemma wrap_failure_attr k t P e :
@@ -770,7 +802,7 @@ Section Hold.
       of (the first [MAX_HOPS] of) the hops up to the failing one, in path order - under the same
       side condition as attribution itself (no spurious HMAC match before the failing hop). *)
   Theorem hold_times_failure before ki after code d hi :
-    (0 <= code < 65536)%Z -> (Z.of_nat (length d) <= 64000)%Z -> (0 <= hi < 2 ^ 32)%Z ->
+    (0 <= code < 65536)%Z -> (Z.of_nat (length d) <= 64529)%Z -> (0 <= hi < 2 ^ 32)%Z ->
     Forall (fun kh => (0 <= snd kh < 2 ^ 32)%Z) before ->
     no_spurious_match (map fst before) (crypt_data ki (failure_plain ki code d DEFAULT_MIN_FAILURE_PACKET_LEN)) ->
     snd (process_onion_failure (map fst before ++ ki :: after) (failure_at_sender before ki code d hi))
